@@ -248,6 +248,27 @@ func C11(c *Ctx) {
 			}
 		}
 		if batch == nil {
+			// through a wrapper of the chain ledger that hands its batch on to persistChainMeta (stageChainMeta)
+			for _, call := range core.Calls(pe) {
+				g := core.StaticCallee(call)
+				if g == nil || len(g.Blocks) == 0 || core.PkgOf(g) != core.PkgOf(pe) {
+					continue
+				}
+				for _, gc := range core.Calls(g) {
+					if !strings.HasSuffix(core.CalleeName(gc), ".persistChainMeta") {
+						continue
+					}
+					if p, ok := core.Strip(core.Arg(gc, 0)).(*ssa.Parameter); ok {
+						for i, q := range g.Params {
+							if q == p && i < len(call.Common().Args) {
+								batch = call.Common().Args[i]
+							}
+						}
+					}
+				}
+			}
+		}
+		if batch == nil {
 			r.Unknown("R11.1", "PersistExecutionResult: batch carrying the chain meta", c.P.Pos(pe.Pos()), "no persistChainMeta(batch, ..) call found")
 		} else {
 			sameBatch := func(v ssa.Value) bool {
